@@ -8,15 +8,15 @@ def jobs(tier):
     q = tier == "quick"
     js = [
         # ThreadSanitizer build, few processes with many threads each: long runs of cases per process
-        Job(T, "flt-tsan", "random", workers=6, cases=110 if q else 1300, maxtime=60 if q else 600, name=T + ".flt-tsan.main"),
+        Job(T, "flt-tsan", "random", workers=6, cases=320 if q else 4000, maxtime=90 if q else 600, name=T + ".flt-tsan.main"),
     ]
     # fresh processes: the first case of a process is the only one that sees first-use initialisation
     # (CPU detection, static mode lookup, anything lazily built) with all threads arriving together
-    for k in range(2 if q else 12):
+    for k in range(5 if q else 20):
         js.append(Job(T, "flt-tsan", "random", workers=16, cases=2, maxtime=60 if q else 120, seed_salt=101 + k,
                       name="%s.flt-tsan.fresh%d" % (T, k)))
     # uninstrumented -O2 build with assertions: real parallel speed, digest oracle only
-    js.append(Job(T, "flt-opt", "random", workers=6, cases=260 if q else 4000, maxtime=40 if q else 400, seed_salt=7,
+    js.append(Job(T, "flt-opt", "random", workers=6, cases=260 if q else 5000, maxtime=40 if q else 400, seed_salt=7,
                   name=T + ".flt-opt.digest"))
     return js
 
@@ -37,9 +37,9 @@ PROP = dict(
         T + "/kind:encoder": 50, T + "/kind:decoder": 50, T + "/kind:multistream": 30, T + "/kind:repacketizer": 30, T + "/kind:projection": 10,
         T + "/kind-in-2+threads:encoder": 20, T + "/kind-in-2+threads:decoder": 20, T + "/kind-in-2+threads:repacketizer": 5,
         T + "/create:init-in-caller-memory": 50, T + "/create:create": 50,
-        T + "/fresh-process:simultaneous-first-call": 8, T + "/arch-cap:0": 20, T + "/arch-cap:255": 20,
+        T + "/fresh-process:simultaneous-first-call": 10, T + "/arch-cap:0": 20, T + "/arch-cap:255": 20,
         T + "/op:loss-concealment": 20, T + "/op:fec": 10, T + "/op:reset": 20, T + "/op:recreate": 20,
-        T + "/mode-transition-in-2+threads": 10, T + "/schedule:perturbed": 50, T + "/coded-ok": 200}},
+        T + "/mode-transition-in-2+threads": 10, T + "/fec-with-lbrr-in-2+threads": 3, T + "/schedule:perturbed": 50, T + "/coded-ok": 200}},
     assumptions=[
         "Schedules are sampled, not enumerated: each case is one execution under the OS scheduler with generated yields/spins. ThreadSanitizer "
         "checks happens-before on the executions it sees, so a racy pair of accesses is reported without the race having to manifest, but only "
